@@ -8,3 +8,4 @@ import Lmd.Props.C11
 #print axioms Lmd.C11.restart_detected_count
 #print axioms Lmd.C11.restart_stops_list
 #print axioms Lmd.C11.restart_rebuilds
+#print axioms Lmd.C11.failed_rebuild_remembers_restart
